@@ -60,6 +60,7 @@ func init() {
 		effects.PureOps(11, "Delete", "Erase", "Slice", "(FeatureSlice).Filter", "(GenBankFields).Slice", "*.Shift", "*.Expand")(p, r)
 		conserve.C03(p, r)
 		conserve.AsCompleteRules(p, r)
+		conserve.PointVanish(p, r)
 		conserve.QuantAll(p, r)
 		orders.RangePred(p, r)
 		conserve.NormaliseFirst(p, r, 3, core.PkgGts, core.PkgSeqio, core.PkgMain)
